@@ -79,12 +79,20 @@ BODIES = {
     "loop-of-nested-invokes-pcall": ("while true do pcall(frame.preprocess, frame, '{{#invoke:b|echo|x}}{{#invoke:b|lib}}') end", False),
 }
 WRAPPERS = ["none", "pcall", "xpcall", "pcall-outer-loop", "nested-pcall", "swallow-loop", "preprocess-nested-loop",
-            "nested-benign-then-loop", "expandTemplate-loop", "set-timeout-call", "clear-hook-call", "load-time-loop"]
+            "nested-benign-then-loop", "expandTemplate-loop", "set-timeout-call", "clear-hook-call", "load-time-loop",
+            # xpcall message handlers: Lua runs the handler of an error raised by the count hook with hooks disabled
+            "xpcall-handler-constant", "xpcall-handler-table", "xpcall-handler-nothing", "xpcall-handler-loops",
+            "xpcall-error-then-handler-loops", "xpcall-handler-errors", "xpcall-in-outer-loop"]
+# CPU seconds one forked program may spend without the Python interpreter getting control once (RLIMIT_CPU pushed
+# back by a Python-level heartbeat, load independent).  An armed count hook polls os.time (= the virtual clock, Python)
+# every 100 000 VM instructions, i.e. many times per second: a program that burns this much CPU without one poll and
+# without any callback into Python is running Lua where the count hook cannot fire.
+CHILD_CPU_CAP = 30
 
 
 def floors(tier):
     return {"oracle.R1-aborted-within-B-polls": 60, "oracle.R3-timeout-element": 60, "oracle.followup==fresh": 100,
-            "sets.body-wrapper-pairs": 60, "counters.hook.arm": 100, "counters.polls": 500, "counters.invocation-depth>=2": 10,
+            "sets.body-wrapper-pairs": 300, "counters.hook.arm": 100, "counters.polls": 500, "counters.invocation-depth>=2": 10,
             "counters.followups-after-time-jump": 20, "counters.disturbances": 50}
 
 
@@ -106,6 +114,20 @@ def program(body_name, wrapper, n):
         f = "function e.f(frame) local ok, r = pcall(spin, frame) return 'caught:' .. tostring(ok) end"
     elif w == "xpcall":
         f = "function e.f(frame) local ok, r = xpcall(function() return spin(frame) end, function(m) return m end) return 'caught:' .. tostring(ok) end"
+    elif w == "xpcall-handler-constant":
+        f = "function e.f(frame) local ok, r = xpcall(function() return spin(frame) end, function() return 'handled' end) return 'done:' .. tostring(ok) end"
+    elif w == "xpcall-handler-table":
+        f = "function e.f(frame) local ok, r = xpcall(function() return spin(frame) end, function() return {} end) return 'done:' .. tostring(ok) end"
+    elif w == "xpcall-handler-nothing":
+        f = "function e.f(frame) local ok, r = xpcall(function() return spin(frame) end, function() end) return 'done:' .. tostring(ok) end"
+    elif w == "xpcall-handler-loops":
+        f = "function e.f(frame) local ok, r = xpcall(function() return spin(frame) end, function() while true do end end) return 'done:' .. tostring(ok) end"
+    elif w == "xpcall-error-then-handler-loops":
+        f = "function e.f(frame) local ok, r = xpcall(function() error('x') end, function() return spin(frame) end) return 'done:' .. tostring(ok) end"
+    elif w == "xpcall-handler-errors":
+        f = "function e.f(frame) local ok, r = xpcall(function() return spin(frame) end, function(m) error('handler boom') end) return 'done:' .. tostring(ok) end"
+    elif w == "xpcall-in-outer-loop":
+        f = "function e.f(frame) while true do xpcall(function() return spin(frame) end, function() return 1 end) end end"
     elif w == "pcall-outer-loop":
         f = "function e.f(frame) while true do pcall(spin, frame) end end"
     elif w == "nested-pcall":
@@ -266,6 +288,20 @@ def child_run(par, prog, limit, followups, jump, wfd):
     # wall-clock watchdog of the child itself: inconclusive, never a violation
     signal.signal(signal.SIGALRM, lambda *_: (rep.__setitem__("watchdog", True), finish(9)))
     signal.alarm(120)
+    import resource
+    hard = resource.getrlimit(resource.RLIMIT_CPU)[1]
+    # SIGXCPU ends the child (no Python handler).  The cap is pushed back by a heartbeat that only runs when the
+    # Python interpreter gets control (signal handlers are deferred to bytecode boundaries): programs that are slow
+    # because every iteration goes through Python (nested expansions) keep it alive, and so does an armed count hook
+    # (it polls os.time = Python).  Only CHILD_CPU_CAP seconds of CPU spent inside Lua/C with no hook firing end it.
+    def heartbeat(*_):
+        cap = int(time.process_time()) + CHILD_CPU_CAP
+        if hard != resource.RLIM_INFINITY:
+            cap = min(cap, hard)
+        resource.setrlimit(resource.RLIMIT_CPU, (cap, hard))
+    heartbeat()
+    signal.signal(signal.SIGVTALRM, heartbeat)
+    signal.setitimer(signal.ITIMER_VIRTUAL, 1.0, 1.0)
 
     for title, ns, body in prog["pages"]:
         ctx.add_page(title, ns, body, model="Scribunto" if ns == 828 else "wikitext")
@@ -350,6 +386,8 @@ def run_program(par, prog, limit, followups, jump):
     except Exception:
         st = -1
     if not buf:
+        if st != -1 and os.WIFSIGNALED(st) and os.WTERMSIG(st) == signal.SIGXCPU:
+            return {"cpu_exhausted": True}
         return {"harness": "child ended without report (status %r)" % st}
     try:
         return json.loads(buf.decode())
@@ -401,9 +439,10 @@ def run_shard(spec):
     par = Parent()
     bodies = sorted(BODIES)
     combos = [(b, w) for b in bodies for w in WRAPPERS]
-    rng.shuffle(combos)
+    random.Random(spec["seed"] // 1000).shuffle(combos)     # same order in every shard: the slices partition the matrix
     # spread the (body, wrapper) matrix over the shards first, then sample
     mine = combos[spec["idx"]::16]
+    exhausted = 0
     for i in range(spec["n"]):
         b, w = mine[i] if i < len(mine) else rng.choice(combos)
         limit = rng.choice([0.5, 1, 2, 2, None]) if i % 5 else 1
@@ -414,6 +453,9 @@ def run_shard(spec):
             if w == "load-time-loop":
                 w = "none"
         pages, call, may_error = program(b, w, spec["seed"] * 100000 + i)
+        # several top-level invocations in one expand() call: each has the configured limit for itself
+        repeat = rng.choice([1, 1, 1, 2, 3])
+        call = call * repeat
         prog = {"body": b, "wrapper": w, "pages": pages, "call": call, "may_error": may_error,
                 "disturb": [rng.choice(DISTURBANCES) for _ in range(rng.randint(0, 2))]}
         fu = [rng.choice(BENIGN_CALLS) for _ in range(rng.randint(1, 5))] + ["{{#invoke:b|count}}"]
@@ -422,10 +464,22 @@ def run_shard(spec):
         jump = rng.random() < 0.5
         rep = run_program(par, prog, limit, fu, jump)
         case = {"body": b, "wrapper": w, "limit": limit, "followups": fu, "jump": jump, "n": spec["seed"] * 100000 + i,
-                "disturb": prog["disturb"]}
+                "disturb": prog["disturb"], "repeat": repeat}
         obs.count("disturbances", len(prog["disturb"]))
         if "harness" in rep:
             obs.inconclusive.append("program %s/%s: %s" % (b, w, rep["harness"]))
+            continue
+        if rep.get("cpu_exhausted"):
+            obs.case([b, w, limit], nontrivial=True)
+            obs.add("body-wrapper-pairs", b + "/" + w)
+            obs.violation("R1:never-aborted-and-no-poll-reached-the-checker-before-the-cpu-cap/wrapper=" + w,
+                          "program %s/%s (limit %r) spent %d s of CPU inside Lua without returning, without one poll of "
+                          "the time limit and without any callback into Python: Lua is running where the count hook "
+                          "does not fire" % (b, w, limit, CHILD_CPU_CAP), case)
+            exhausted += 1
+            if exhausted >= 3:
+                obs.notes.append("stopped early after 3 programs that ran into the CPU cap")
+                break
             continue
         probs, how = judge(par, prog, rep, limit, fu)
         if how == "watchdog":
@@ -463,9 +517,14 @@ def run_shard(spec):
 def replay(case):
     par = Parent()
     pages, call, may_error = program(case["body"], case["wrapper"], case["n"])
+    call = call * case.get("repeat", 1)
     prog = {"body": case["body"], "wrapper": case["wrapper"], "pages": pages, "call": call, "may_error": may_error,
             "disturb": case.get("disturb", [])}
     rep = run_program(par, prog, case["limit"], case["followups"], case["jump"])
+    if rep.get("cpu_exhausted"):
+        par.close()
+        return {"violations": ["R1:never-aborted-and-no-poll-reached-the-checker-before-the-cpu-cap/wrapper=" + case["wrapper"]],
+                "report": rep, "module": pages[-1][2]}
     probs, how = judge(par, prog, rep, case["limit"], case["followups"]) if "harness" not in rep else ([], "harness")
     par.close()
     return {"violations": [p[0] for p in probs], "details": probs, "report": rep, "module": pages[-1][2]}
